@@ -96,6 +96,16 @@ def reference_record(g, member=None):
 # ----------------------------------------------------------------------------------------------
 # partitions
 # ----------------------------------------------------------------------------------------------
+# molecules with a fixed partition that cuts 2, 3 and 4 bonds between the same two fragments (base-graph orders '=', '#', '$')
+MULTICUT = [
+    ("C1CCC1", [0, 0, 1, 1]),
+    ("C1C2CCC2C1", [0, 0, 0, 1, 1, 1]),
+    ("C1C2C3CCC3C2C1", [0, 0, 0, 0, 1, 1, 1, 1]),
+    ("N1C2C3COC3C2C1", [0, 0, 0, 0, 1, 1, 1, 1]),
+    ("C1C2C3CCC3C2C1CO", [0, 0, 0, 0, 1, 1, 1, 1, 1, 2]),
+]
+
+
 def random_partition(g, rng, nblocks):
     """Partition the atoms into connected blocks (all bonds between different blocks are cut)."""
     nodes = list(g.nodes)
@@ -579,6 +589,44 @@ STEREO = [
     "N[C;x=R](C)C(=O)O", "C[C;x=R](F)C[C;x=S](Cl)O", "F/C=C/CC[C;x=S](C)O",
     "CSc1ccc(cc1)/C=C/F", "CSc1ccc(cc1)[C;x=S](O)C(F)(F)F", "F/C=C/[C;x=S](Cl)O", "C/C=C\\[C;x=R](F)CC", "[O-]/C=C/C", "C/C=C/[NH3+]",
 ]
+
+
+# stereo double bonds whose marked substituent is an explicitly written hydrogen (imines, oximes, toolkit output)
+STEREO_H = ["[H]/N=C(/C)CC", "[H]/C(C)=C/F", "[H]/N=C(\\C)CC", "C(/[H])(F)=C(/[H])Cl", "CC/C([H])=N/O", "[H]/C(CC)=C(/[H])CO"]
+
+
+def explicit_h_configs(smiles):
+    """The uncut molecule as one fragment, and every cut at an unmarked single chain bond at depth 0 between two atoms
+    (A = prefix + [$], B = [$] + suffix) in both base-graph orders.  -> (reftoks, [(base tokens, frags, posmap)])"""
+    s = smiles.replace("\\\\", "\\")
+    toks = render.tokenize_fragment(s, False)
+    assert render.render_fragment_tokens(toks) == s, smiles
+    out = [([render.tok("N", "A")], [("A", toks)], {("A", k): k + 1 for k in range(sum(1 for t in toks if t["k"] == "A"))})]
+    depth, natoms, open_rings = 0, 0, set()
+    for i, t in enumerate(toks):
+        if t["k"] == "(":
+            depth += 1
+        elif t["k"] == ")":
+            depth -= 1
+        elif t["k"] == "R":
+            open_rings ^= {t["n"]}
+        elif t["k"] == "A":
+            natoms += 1
+            if depth == 0 and not open_rings and i + 1 < len(toks) and toks[i + 1]["k"] == "A" and not toks[i]["ar"]:
+                # a marked bond has a Z token in between, a double bond a B token: neither is cut here
+                total = sum(1 for x in toks if x["k"] == "A")
+                if any(x["k"] == ")" for x in toks[i + 1:]) and depth != 0:
+                    continue
+                fa = toks[:i + 1] + [render.ftok("D", "$", el="")]
+                fb = [render.ftok("D", "$", el="")] + toks[i + 1:]
+                # the suffix must be a complete text on its own (no branch closed that was opened in the prefix)
+                if sum(1 for x in fb if x["k"] == "(") != sum(1 for x in fb if x["k"] == ")"):
+                    continue
+                pm = {("A", k): k + 1 for k in range(natoms)}
+                pm.update({("B", k): natoms + k + 1 for k in range(total - natoms)})
+                for order in (("A", "B"), ("B", "A")):
+                    out.append(([render.tok("N", order[0]), render.tok("N", order[1])], [("A", fa), ("B", fb)], pm))
+    return toks, out
 
 
 def read_stereo(smiles):
